@@ -31,7 +31,7 @@ struct MonConfig {
 class TxMonitor {
  public:
   std::vector<std::pair<std::string, std::string>> viol;   // key, detail
-  long hostBytes = 0, arbitrations = 0, arbWon = 0, arbLost = 0, exchangesSeen = 0, autoSyns = 0, adverse = 0, answersSeen = 0;
+  long hostBytes = 0, arbitrations = 0, arbWon = 0, arbLost = 0, exchangesSeen = 0, autoSyns = 0, adverse = 0, answersSeen = 0, answersCompleted = 0;
 
   void add(const std::string& key, const std::string& detail) { if (viol.size() < 8) viol.push_back({key, detail}); }
 
@@ -268,17 +268,20 @@ class TxMonitor {
         if (i < n && isHost(i) && log[i].hostWrote != 0xAA) add("c03-transmits-into-foreign-telegram", ctx(log, i));
         return i;
       }
-      if (i >= n || !isHost(i)) return i;     // somebody else (or nobody) acknowledged
+      const AnswerDef* a = cfg.answer ? refAnswer(cfg, m) : nullptr;
+      if (i >= n || !isHost(i)) {             // somebody else (or nobody) acknowledged
+        if (a && crcOk && i < n) add("c15-no-answer", "registered answer for " + vf::hex(m) + " but the host stays silent at " + ctx(log, i));
+        return i;
+      }
       // the host answers
       answersSeen++;
-      const AnswerDef* a = cfg.answer ? refAnswer(cfg, m) : nullptr;
       uint8_t sent = log[i].hostWrote;
       if (!a) { add(cfg.answers.empty() ? "c03-answers-without-registration" : "c15-answers-unregistered", vf::hex(m) + " at " + ctx(log, i)); return i + 1; }
       if (!crcOk && sent == 0x00) add("c15-ack-on-bad-crc", vf::hex(m) + " at " + ctx(log, i));
       if (crcOk && sent != 0x00) add("c15-nak-on-good-crc", vf::hex(m) + " at " + ctx(log, i));
       i++;
       if (sent != 0x00) { if (attempt == 1 && sent == 0xFF) {} continue; }    // NAK: the master repeats (once)
-      if (specIsMaster(m[1])) return i;
+      if (specIsMaster(m[1])) { answersCompleted++; return i; }
       // response of the host: NN data CRC, repeated at most once on NAK
       std::vector<uint8_t> W = specWire(a->resp);
       for (int rattempt = 0; rattempt < 2; rattempt++) {
@@ -291,7 +294,7 @@ class TxMonitor {
         uint8_t react = log[i].b;
         if (log[i].gapBefore || react == 0xAA) return i;
         i++;
-        if (react == 0x00) return i;
+        if (react == 0x00) { answersCompleted++; return i; }
         if (react != 0xFF) { if (i < n && isHost(i) && log[i].hostWrote != 0xAA) add("c15-transmits-after-garbage", ctx(log, i)); return i; }
         if (rattempt == 1) { if (i < n && isHost(i) && log[i].hostWrote != 0xAA) add("c15-transmits-after-second-nak", ctx(log, i)); return i; }
       }
